@@ -944,6 +944,16 @@ Definition swallow_scopes : list (string * string * string) :=
    ("H5Reader.fetch_array_attribute", "swallow#1", "h5:<etype>|h5:<label>|h5:<top>|h5:<uid>");
    ("H5Reader.fetch_metadata", "swallow#1", "h5:<etype>|h5:<label>|h5:<top>|h5:<uid>|py:<uid>");
    ("H5Reader.fetch_uuids", "swallow#1", "h5:<etype>|h5:<top>")].
+(* Session state (rows "assign:<attr>": every `self.<attr> = ...` of Workspace.open / fetch_or_create_root with its nesting
+   depth).  [load] is a function of the file alone: every open starts from empty registries ([reg] = the root only) and, without
+   a Root link, from a root created then ([new_root]).  That is the code as long as open() resets the five registries
+   unconditionally and each branch of fetch_or_create_root assigns the root unconditionally; an assignment that becomes
+   conditional lets a previous session of the same Workspace object leak into the next read. *)
+Definition session_sites : list (string * string * string) :=
+  [("Workspace.open", "assign:_data", "depth=0"); ("Workspace.open", "assign:_objects", "depth=0");
+   ("Workspace.open", "assign:_groups", "depth=0"); ("Workspace.open", "assign:_types", "depth=0");
+   ("Workspace.open", "assign:_property_groups", "depth=0");
+   ("Workspace.fetch_or_create_root", "assign:_root", "depth=1"); ("Workspace.fetch_or_create_root", "assign:_root#2", "depth=1")].
 Definition scope_okb (c : string * string * string) : bool :=
   match c with (f, st, content) => String.eqb (row_miss f st reader_rows) content end.
 Definition site_okb (c : string * string * gkind) : bool :=
